@@ -1,5 +1,5 @@
-"""L1 correspondence for the parser's state machine on special non-file schemes without a base: ada::parse<ada::url>(input) is
-compared, field by field, with Model/ParseSpecial.lean (driver `parse.special`), which Props/C01.parser_special_no_base_partial
+"""L1 correspondence for the parser's state machine without a base (every scheme): ada::parse<ada::url>(input) is
+compared, field by field, with Model/ParseSpecial.lean (driver `parse.special`), which Props/C01.parser_no_base_partial
 proves equal to Spec.parse.  The model's IDNA parameter is answered by the real ada::idna::to_ascii (hints)."""
 import lib
 import genlib
@@ -35,8 +35,13 @@ def gen_input(rng):
     elif r < 0.86:
         s = (genlib.case_mix(rng, rng.choice(SCHEMES)) + b":" + rng.choice(SLASHES) + genlib.gen_userinfo(rng) + genlib.gen_host(rng) +
              genlib.gen_port(rng) + genlib.gen_path(rng) + genlib.gen_query(rng) + genlib.gen_fragment(rng))
-    elif r < 0.90:
+    elif r < 0.89:
         s = rng.choice(OTHER)
+    elif 0.95 <= r < 0.975:
+        sl = rng.choice([b"//", b"//", b"///", b"/", b"", b"\\\\", b"/\\", b"\\/", b"////", b"//C:", b"///C:/", b"/C|/", b"//C|", b"//c:/x", b"//C:x",
+                         b"//localhost", b"//LOCALHOST/", b"//h", b"//h:80", b"//u@h", b"//1.2.3.4", b"//0x7f.1/", b"//[::1]", b"//a b", b"//%6cocalhost",
+                         b"C:/", b"C|", b"c:\\x", b"..", b"./x"])
+        s = genlib.case_mix(rng, b"file") + b":" + sl + rng.choice(REST + [b"/C:/../x", b"/a/../C|/", b"/.//x"])
     elif r < 0.95:
         sc = rng.choice([b"foo", b"a+b-c.d", b"blob", b"mailto", b"FOO", b"javascript", b"x"])
         k = rng.random()
@@ -66,7 +71,7 @@ def explore(run, binp, n):
     q = ["parse.special " + l.split()[1] for l in lines]
     model, dcrash = lib.run_lines(lib.driver_path(), q, timeout=900)
     if dcrash:
-        run.oblige("corr:L1 parse_url_impl special no base (driver)", False, str(dcrash)[:300])
+        run.oblige("corr:L1 parse_url_impl no base (driver)", False, str(dcrash)[:300])
         return
     idna_via = wpt.idna_via_harness(binp)
     hints, rounds = {}, 0
@@ -82,16 +87,14 @@ def explore(run, binp, n):
                                                                                  for d in [unhx(model[i].split()[1])] if d in hints)
                                                          for i in idx], timeout=900)
         if dcrash:
-            run.oblige("corr:L1 parse_url_impl special no base (driver)", False, str(dcrash)[:300])
+            run.oblige("corr:L1 parse_url_impl no base (driver)", False, str(dcrash)[:300])
             return
         for i, a in zip(idx, sub):
             model[i] = a
-    bad, stat = [], {"other": 0, "invalid": 0, "ok": 0, "ok_with_credentials": 0, "ok_with_port": 0, "ok_ipv6": 0, "idna_asked": len(hints)}
+    bad, stat = [], {"invalid": 0, "ok": 0, "ok_with_credentials": 0, "ok_with_port": 0, "ok_ipv6": 0, "ok_file": 0, "ok_not_special": 0,
+                     "ok_opaque_path": 0, "idna_asked": len(hints)}
     for l, r, m in zip(lines, real, model):
         run.count()
-        if m == "other":
-            stat["other"] += 1
-            continue
         run.nontriv(l)
         if m == "invalid":
             stat["invalid"] += 1
@@ -102,9 +105,12 @@ def explore(run, binp, n):
                 stat["ok_with_credentials"] += f[2] != "-" or f[3] != "-"
                 stat["ok_with_port"] += f[5] != "-"
                 stat["ok_ipv6"] += f[4].startswith("5b")
+                stat["ok_file"] += f[0] == "66696c65"
+                stat["ok_not_special"] += f[1] == "0"
+                stat["ok_opaque_path"] += f[9] == "1"
         if r != m:
             bad.append((l, r, m))
     run.extra["parse_special_L1_inputs"] = len(lines)
     run.extra["parse_special_L1_outcomes"] = stat
-    run.oblige("corr:L1 Model.ParseSpecial = ada::parse<ada::url>(input) without a base, special non-file schemes (every field, failures)",
+    run.oblige("corr:L1 Model.ParseSpecial = ada::parse<ada::url>(input) without a base, every scheme (every field, failures)",
                not bad, "; ".join(f"input {unhx(l.split()[1])!r}: implementation [{r[:300]}], model [{m[:300]}]" for l, r, m in bad[:3]))
